@@ -12,6 +12,10 @@ package harness
 // attributes expire between two blocks; `sweep` calls Keeper.DeleteExpiredAttributes with a small
 // limit of its own, which exercises the cap logic of the sweep loop (counter, break, key order)
 // that the chain runs with MaxExpiredAttributionCount.
+// A VALUE token may carry surrounding white space (`_` = space: `1_` is the value "1 "): types.NewAttribute
+// strips it for the textual types only (bytes / proto values are stored verbatim), MsgUpdateAttribute,
+// MsgUpdateAttributeExpiration and MsgDeleteDistinctAttribute take the value as it is, so "1" and "1 " are
+// different attributes of one (account, name) and a deletion by value must hit exactly the one named.
 // GENESIS: `regen <t>` exports the attribute module's genesis in the middle of a history, empties
 // the attribute store and runs InitGenesis with the export at block time t; the history goes on.
 
@@ -112,8 +116,13 @@ func newAttrEnv(t *testing.T) *attrEnv {
 		e.nameSym[string(attrtypes.GetNameKeyBytes(n))] = n
 	}
 	for _, v := range append([]string{""}, attrValues...) {
-		h := sha256.Sum256([]byte(v))
-		e.valSym[string(h[:])] = v
+		for _, tok := range []string{v, "_" + v, v + "_", "_" + v + "_", "__" + v, v + "__"} {
+			if v == "" {
+				tok = v
+			}
+			h := sha256.Sum256([]byte(attrRaw(tok)))
+			e.valSym[string(h[:])] = tok
+		}
 	}
 	e.amsg = attrkeeper.NewMsgServerImpl(attrApp.AttributeKeeper)
 	e.nmsg = namekeeper.NewMsgServerImpl(attrApp.NameKeeper)
@@ -168,7 +177,34 @@ func attrVal(s string) []byte {
 	if s == "-" {
 		return nil
 	}
-	return []byte(s)
+	return []byte(attrRaw(s)) // `_` = space
+}
+
+// attrPad puts white space (`_` in the token) around a value token.
+func attrPad(rng *RNG, v string) string {
+	if v == "-" {
+		return v
+	}
+	switch rng.Intn(5) {
+	case 0:
+		return "_" + v
+	case 1, 2:
+		return v + "_"
+	case 3:
+		return "_" + v + "_"
+	}
+	return Pick(rng, []string{"__" + v, v + "__"})
+}
+
+func attrPadded(v string) bool { return strings.HasPrefix(v, "_") || strings.HasSuffix(v, "_") }
+
+// attrTogglePad returns the other form of a value token: trimmed when it carries white space,
+// padded when it does not.
+func attrTogglePad(rng *RNG, v string) string {
+	if attrPadded(v) {
+		return strings.Trim(v, "_")
+	}
+	return attrPad(rng, v)
 }
 
 func attrExp(s string) *time.Time {
@@ -327,6 +363,25 @@ func (e *attrEnv) exec(op string) string {
 			e.lastVB = "pass"
 		} else {
 			e.lastVB = "fail"
+		}
+	}
+	// value tokens that may get stored (verbatim or trimmed): known to the queue decoder
+	regVal := func(tok string) {
+		for _, t := range []string{tok, strings.Trim(tok, "_")} {
+			if t != "-" && t != "" {
+				h := sha256.Sum256([]byte(attrRaw(t)))
+				e.valSym[string(h[:])] = t
+			}
+		}
+	}
+	switch ws[0] {
+	case "add":
+		if len(ws) == 7 {
+			regVal(ws[4])
+		}
+	case "upd":
+		if len(ws) == 8 {
+			regVal(ws[6])
 		}
 	}
 	switch ws[0] {
@@ -525,7 +580,7 @@ func (e *attrEnv) dump() string {
 		if a.ExpirationDate != nil {
 			exp = strconv.FormatInt(a.ExpirationDate.Unix(), 10)
 		}
-		recs = append(recs, fmt.Sprintf("%s/%s/%s/%s/%s", e.symStr(a.Address), attrTok(a.Name), string(a.Value), attrTypeStr(a.AttributeType), exp))
+		recs = append(recs, fmt.Sprintf("%s/%s/%s/%s/%s", e.symStr(a.Address), attrTok(a.Name), attrTok(string(a.Value)), attrTypeStr(a.AttributeType), exp))
 	}
 	it.Close()
 	// the public lookup
@@ -673,6 +728,14 @@ func driveAttr(t *testing.T, rng *RNG, n int, out *Out) {
 		// overwrites and stale queue entries are frequent
 		accts := []string{Pick(rng, signers), Pick(rng, signers), "C"}
 		vals := []string{Pick(rng, attrValues), Pick(rng, attrValues), Pick(rng, attrValues)}
+		// values with surrounding white space (about one history in three has one): stored verbatim
+		// under the bytes / proto types and by MsgUpdateAttribute, trimmed by MsgAddAttribute otherwise
+		for i := range vals {
+			if rng.Chance(13) {
+				vals[i] = attrPad(rng, vals[i])
+				out.Count("history:padded_value")
+			}
+		}
 		nops := 3 + rng.Intn(maxOps-2)
 		// VOLUME histories (about one in twenty): the first message is a bulk of n attributes with
 		// one expiration (n from a handful up to a few thousand; the thorough tier goes further),
@@ -723,6 +786,9 @@ func driveAttr(t *testing.T, rng *RNG, n int, out *Out) {
 				val = "-"
 			}
 			ty := Pick(rng, attrTypes)
+			if attrPadded(val) && rng.Chance(50) {
+				ty = Pick(rng, []string{"bytes", "proto"})
+			}
 			if (ty == "int" || ty == "float") && strings.HasPrefix(val, "x") && rng.Chance(80) {
 				ty = "string"
 			}
@@ -825,6 +891,21 @@ func driveAttr(t *testing.T, rng *RNG, n int, out *Out) {
 						signer = o
 					}
 					out.Count("add:formerly_stored")
+				} else if len(recs) > 0 && rng.Chance(12) {
+					// the other form (trimmed / padded) of a value that is stored: two attributes of one
+					// (account, name) whose values differ only in surrounding white space
+					r := Pick(rng, recs)
+					acct, name, val = r.acct, r.name, attrTogglePad(rng, r.value)
+					if attrPadded(val) && rng.Chance(80) {
+						ty = Pick(rng, []string{"bytes", "proto"})
+					}
+					if o := e.owner(name); o != "" && rng.Chance(90) {
+						signer = o
+					}
+					out.Count("add:other_form_of_stored_value")
+				}
+				if attrPadded(val) {
+					out.Count("add:padded_value:" + ty)
 				}
 				sg, nm := sn()
 				op = fmt.Sprintf("add %s %s %s %s %s %s", sg, acct, nm, val, ty, exp)
@@ -840,8 +921,19 @@ func driveAttr(t *testing.T, rng *RNG, n int, out *Out) {
 						ot = Pick(rng, attrTypes)
 					}
 				}
+				nv := Pick(rng, vals)
+				if rng.Chance(8) {
+					nv = attrTogglePad(rng, Pick(rng, []string{nv, ov}))
+				}
+				if rng.Chance(5) {
+					ov = attrTogglePad(rng, ov)
+					out.Count("upd:other_form_of_original_value")
+				}
+				if attrPadded(nv) {
+					out.Count("upd:padded_new_value")
+				}
 				sg, nm := sn()
-				op = fmt.Sprintf("upd %s %s %s %s %s %s %s", sg, acct, nm, ov, ot, Pick(rng, vals), ty)
+				op = fmt.Sprintf("upd %s %s %s %s %s %s %s", sg, acct, nm, ov, ot, nv, ty)
 			case k < 52:
 				if len(recs) > 0 && rng.Chance(88) {
 					r := Pick(rng, recs)
@@ -856,6 +948,10 @@ func driveAttr(t *testing.T, rng *RNG, n int, out *Out) {
 							out.Count("updexp:same_expiration")
 						}
 					}
+				}
+				if rng.Chance(8) {
+					val = attrTogglePad(rng, val)
+					out.Count("updexp:other_form_of_value")
 				}
 				sg, nm := sn()
 				op = fmt.Sprintf("updexp %s %s %s %s %s", sg, acct, nm, val, exp)
@@ -876,6 +972,14 @@ func driveAttr(t *testing.T, rng *RNG, n int, out *Out) {
 					if o := e.owner(name); o != "" && rng.Chance(85) {
 						signer = o
 					}
+				}
+				// deletion by a value that differs from a stored one only in surrounding white space
+				if rng.Chance(15) {
+					val = attrTogglePad(rng, val)
+					out.Count("deld:other_form_of_value")
+				}
+				if attrPadded(val) {
+					out.Count("deld:padded_value")
 				}
 				sg, nm := sn()
 				op = fmt.Sprintf("deld %s %s %s %s", sg, acct, nm, val)
@@ -904,6 +1008,14 @@ func driveAttr(t *testing.T, rng *RNG, n int, out *Out) {
 				}
 				op = fmt.Sprintf("xfer %s %s %s", au, name, Pick(rng, signers))
 			case k < 82:
+				// mostly a name that has attributes at the moment, by its owner
+				if len(recs) > 0 && rng.Chance(50) {
+					name = Pick(rng, recs).name
+					if o := e.owner(name); o != "" && rng.Chance(85) {
+						signer = o
+					}
+					out.Count("delname:name_with_attributes")
+				}
 				sg, nm := sn()
 				op = fmt.Sprintf("delname %s %s", sg, nm)
 			case k < 95:
